@@ -145,13 +145,20 @@ def run(ctx):
                         '_play_category contains a yield: it became a generator, so `return ex` for a failing tuner only sets StopIteration.value '
                         'and the category silently yields nothing; tuning and lookup are deferred to consumption time'))
     okh = False
+    from .. import paths as _paths
     for t in [n for n in walk_own(pc.node) if isinstance(n, ast.Try)]:
         if any(isinstance(x, ast.Call) and isinstance(x.func, ast.Attribute) and x.func.attr == 'create_category_tuning' for b in t.body for x in ast.walk(b)):
-            for h in t.handlers:
-                if h.type is not None and norm(h.type) in ('Exception',) and h.name:
-                    rets = [x for x in ast.walk(h) if isinstance(x, ast.Return)]
-                    okh = bool(rets) and all(isinstance(r.value, ast.Name) and r.value.id == h.name for r in rets) and \
-                        not any(isinstance(x, ast.Raise) for x in ast.walk(h))
+            hs = [h for h in t.handlers if h.type is not None and norm(h.type) in ('Exception',) and h.name]
+            if len(hs) != 1 or any(isinstance(x, ast.Raise) for x in ast.walk(hs[0])):
+                continue
+            # path table of the function: every path that went through this handler returns the caught exception itself
+            try:
+                table = _paths.return_paths(pc.node)
+            except _paths.Unsupported as ex:
+                raise AnalysisError('per-category routine has a shape the path table does not model: %s' % ex)
+            mark = '<exception %s>' % norm(hs[0].type)
+            via = [p for p in table if any(isinstance(c, ast.Name) and c.id == mark and pol for c, pol in p.conds)]
+            okh = bool(via) and all(not p.raises and isinstance(p.value, ast.Name) and p.value.id == hs[0].name for p in via)
     cb.instance('tuner call inside try; handler returns the exception as this category\'s result', pc.qualname, okh)
     if not okh:
         res.add(Finding('C19', 'C19.b', 'R-CONTAIN', pc.file, pc.qualname, pc.node.lineno, 'tuner failure handler',
